@@ -663,10 +663,12 @@ def partition(job):
                              "demanded_parameters_after_each_call": [st["call"]["out"]["want"] for st in h["steps"]],
                              "frame_laws_per_call": [st["call"]["req"] for st in h["steps"]]}
     res["shape_obs"] = dict(SHAPE_OBS)
-    if job.get("pending"):      # counted, not judged (see PENDING_PTYPES)
-        res["pending"] = len(res["viol"])
-        res["pending_example"] = res["viol"][0][0] if res["viol"] else None
-        res["viol"] = []
+    # chains whose parameters are passed as a PENDING (unsigned) type: counted, not judged (see PENDING_PTYPES)
+    pend = [v for v in res["viol"] if "mod" in v[2] and v[2]["mod"]["input"].get("pt") in PENDING_PTYPES]
+    if pend:
+        res["pending"] = len(pend)
+        res["pending_example"] = pend[0][2]["mod"]["input"]["pt"] + " parameters: " + pend[0][0]
+        res["viol"] = [v for v in res["viol"] if v not in pend]
     return res
 
 
@@ -731,17 +733,15 @@ def plan(tier, seed):
                                                              scalecases=scalecases)})
     # parameter scalar types: full chains for sizes at the 8-bit thresholds of fft^2 (12, 16), small and non-pow2 sizes
     tcfg = [(4, 1, 4), (8, 2, 4), (8, 8, 8), (12, 5, 10), (16, 4, 10), (16, 16, 16), (60, 7, 52), (6, 0, 2)]
-    jobs.append({"label": "ptypes", "w": 7e10, "model": dict(configs=tcfg, ptypes=JUDGED_PTYPES, seed=seed, lenmode="isi",
+    jobs.append({"label": "ptypes", "w": 7e10, "model": dict(configs=tcfg, ptypes=PTYPES, seed=seed, lenmode="isi",
                                                               patmode="dense", ndense=1, laymode="one")})
-    jobs.append({"label": "ptypes-pending", "pending": True, "w": 6e10, "model": dict(
-        configs=tcfg[:5], ptypes=PENDING_PTYPES, seed=seed, lenmode="isi", patmode="dense", ndense=1, laymode="none")})
     # every static realisation: each layout at the overall gains 1e-7 .. 1e7
     jobs.append({"label": "gains", "w": 5e10, "model": dict(configs=configs_of([2, 4, 8]) if tier == "quick" else configs_of([2, 4, 8, 16]),
-                                                             gains=GAINS, seed=seed, lenmode="isi", patmode="dense", ndense=1,
+                                                             gains=GAINS if tier != "quick" else [-7, -6, -4, -1, 0, 3, 7], seed=seed, lenmode="isi", patmode="dense", ndense=1,
                                                              laymode="one", block=(tier != "quick"))})
     if tier == "quick":
-        # every length and the complete unit basis of the data; loopback and the full-memory two-tap layout
-        add("data-sweep", pow2, 6, 2.0, lenmode="all", patmode="basis", ndense=1, laymode="one", block=False)
+        # every length and the complete unit basis of the data, loopback (the product with the tap basis is in the thorough tier)
+        add("data-sweep", pow2, 5, 2.0, lenmode="all", patmode="basis", ndense=1, laymode="none", block=False)
         # the complete unit basis of the taps (+ the three layouts), static and block-static, two lengths
         add("tap-sweep", pow2, 4, 1.0, cost_basis, lenmode="two", patmode="dense", ndense=1, laymode="basis", block=True)
         add("non-pow2", np2, 1, 1e6, lenmode="two", patmode="dense", ndense=1, laymode="three", block=True)
@@ -831,8 +831,7 @@ def run(ctx):
         nchains += res["chains"]
         ctx.notes["layouts_not_equalised"] = ctx.notes.get("layouts_not_equalised", 0) + res["excluded"]
         if "pending" in res:
-            ctx.notes["pending_unsigned_parameter_cases"] = {"mismatching_chains": res["pending"], "of": res["chains"],
-                                                             "example": res["pending_example"]}
+            ctx.notes["pending_unsigned_parameter_cases"] = {"mismatches": res["pending"], "example": res["pending_example"]}
         ctx.notes["histories_replayed"] = ctx.notes.get("histories_replayed", 0) + res.get("histories", 0)
         for k, v in res.get("shape_obs", {}).items():   # observation, not a verdict: the call changed the SHAPE of its argument
             obs = ctx.notes.setdefault("calls_that_reshaped_their_argument", {})
